@@ -43,6 +43,7 @@ import (
 	"sigs.k8s.io/controller-runtime/pkg/reconcile"
 
 	"github.com/koordinator-sh/koordinator/apis/configuration"
+	"github.com/koordinator-sh/koordinator/apis/extension"
 	slov1alpha1 "github.com/koordinator-sh/koordinator/apis/slo/v1alpha1"
 	"github.com/koordinator-sh/koordinator/pkg/util/sloconfig"
 	"github.com/koordinator-sh/koordinator/pkg/verifkit/vk"
@@ -1464,7 +1465,11 @@ func c20ConfigMap(data map[string]string, rv int) *corev1.ConfigMap {
 // client) after the real NodeSLOReconciler.Reconcile ran for the node - first reconcile creates it, later ones take the
 // update path against the previously stored object - and histories also relabel nodes. Judged section drawn per case.
 func c20Run(t *testing.T, focusID string, runMode string) {
-	restore, delivered := runMode == "reapply", runMode == "delivered"
+	// mode "annotated" = "delivered" for the system section, plus: nodes may carry the node.koordinator.sh/network-bandwidth
+	// annotation (documented to override totalNetworkBandwidth for THAT node only) and the order in which the nodes are
+	// reconciled after an event is drawn.
+	annotated := runMode == "annotated"
+	restore, delivered := runMode == "reapply", runMode == "delivered" || annotated
 	c20Quiet()
 	secs := c20AllSections()
 	var fixedFocus *c20Section
@@ -1499,6 +1504,20 @@ func c20Run(t *testing.T, focusID string, runMode string) {
 		for i, l := range nodeLabels {
 			nodes[i] = &corev1.Node{ObjectMeta: metav1.ObjectMeta{Name: fmt.Sprintf("node%d", i), Labels: l}}
 		}
+		annotation := make([]string, len(nodes)) // "" = the node has no bandwidth annotation
+		order := []int{0, 1, 2}                  // order in which the nodes are reconciled after an event
+		if annotated {
+			nAnn := 0
+			for i := range nodes {
+				if rapid.IntRange(0, 9).Draw(t, "hasBandwidthAnnotation") >= 5 {
+					annotation[i] = rapid.SampledFrom([]string{"7G", "300M", "42"}).Draw(t, "bandwidthAnnotation") // values no ConfigMap uses
+					nodes[i].Annotations = map[string]string{extension.AnnotationNodeBandwidth: annotation[i]}
+					nAnn++
+				}
+			}
+			c.Class(fmt.Sprintf("annotated:nodes-with-bandwidth-annotation=%d", nAnn))
+		}
+		ntAnnotated := false
 		// the paths this case concentrates on, per section
 		hot := map[string][]int{}
 		for _, s := range secs {
@@ -1791,7 +1810,28 @@ func c20Run(t *testing.T, focusID string, runMode string) {
 			} else if sawMalformed && st.present && st.mode != "same" {
 				sawFixAfterMalformed = true
 			}
-			for i := range nodes {
+			if annotated {
+				order = rapid.Permutation([]int{0, 1, 2}).Draw(t, "reconcileOrder")
+				if st := state[focus.id]; !st.malformed { // an annotated node is reconciled before a plain node that resolves to the same strategy?
+					first := func(i int) int {
+						if st.present {
+							if m := focus.expect(st.cfg, nodeLabels[i]).matching; len(m) > 0 {
+								return m[0]
+							}
+						}
+						return -1
+					}
+					for x, a := range order {
+						for _, b := range order[x+1:] {
+							if annotation[a] != "" && annotation[b] == "" && first(a) == first(b) {
+								ntAnnotated = true
+								c.Class("annotated:annotated-node-reconciled-before-plain-node-of-same-strategy")
+							}
+						}
+					}
+				}
+			}
+			for _, i := range order {
 				var old *slov1alpha1.NodeSLOSpec
 				if !delivered && oldSpecs[i] != nil && rapid.Bool().Draw(t, "passOldSpec") {
 					old = oldSpecs[i].DeepCopy() // Reconcile passes the spec of the existing NodeSLO
@@ -1802,7 +1842,7 @@ func c20Run(t *testing.T, focusID string, runMode string) {
 					return fmt.Sprintf("node labels=%v after event #%d; delivered %s=%s; history:\n  %s", nodeLabels[i], ev, focus.id, c20LeavesStr(act), strings.Join(hist, "\n  "))
 				}
 				switch {
-				case !st.present: // absent section (or no ConfigMap at all): built-in defaults
+				case !st.present && !annotated: // absent section (or no ConfigMap at all): built-in defaults
 					if !c20LeavesEq(act, focus.defaults) {
 						sig := "absent:" + focus.id + ":not-default"
 						if c20LeavesEq(act, prev[i]) {
@@ -1822,7 +1862,14 @@ func c20Run(t *testing.T, focusID string, runMode string) {
 						c.Violation(t, sig, "section text cannot be parsed, expected the previously effective %s; %s", c20LeavesStr(prev[i]), where())
 					}
 				default:
-					view := focus.expect(st.cfg, nodeLabels[i])
+					cfgNow := st.cfg
+					if !st.present { // annotated mode: an absent section is the layering of nothing, i.e. the defaults
+						cfgNow = &c20SecCfg{}
+					}
+					view := focus.expect(cfgNow, nodeLabels[i])
+					if annotated && annotation[i] != "" { // the node's OWN annotation, documented to take precedence
+						view.exp["/totalNetworkBandwidth"] = c20Exp{val: c20Val{c20KQuantity, annotation[i]}, src: "own-annotation"}
+					}
 					bad, inherited := c20Diff(view.exp, act)
 					if len(bad) > 0 && view.explicitNull && len(act) == 0 {
 						bad = nil
@@ -1843,6 +1890,12 @@ func c20Run(t *testing.T, focusID string, runMode string) {
 						sig := fmt.Sprintf("layer:%s:%s:want-%s:got-%s", focus.id, kindName, want, view.origin(focus, p, a, hasA))
 						if st.mode == "restore" { // only in the re-apply histories
 							sig += ":on-reapplied-identical-text"
+						}
+						for j, ann := range annotation {
+							if annotated && hasA && j != i && ann != "" && a.kind == c20KQuantity && c20ScalarEq(c20KQuantity, a.v, ann) {
+								sig += ":bandwidth-annotation-of-another-node"
+								break
+							}
 						}
 						if old, had := prev[i][p]; delivered && oldSpecs[i] != nil && had == hasA && (!had || c20ValEq(old, a)) {
 							sig += ":stored-nodeslo-keeps-previous-value"
@@ -1936,6 +1989,9 @@ func c20Run(t *testing.T, focusID string, runMode string) {
 		if delivered {
 			nt = ntDelivered
 		}
+		if annotated {
+			nt = ntAnnotated
+		}
 		if nt {
 			c.NonTrivial(nodeLabels, ntKey, focus.id)
 		}
@@ -1959,6 +2015,10 @@ func TestVerifC20Reapply(t *testing.T) { c20Run(t, "", "reapply") }
 // The delivered object: real Reconcile against a client that keeps the stored NodeSLO between reconciles; the spec READ
 // BACK from the stored object is judged after every ConfigMap event and every node relabel. Same oracle.
 func TestVerifC20Delivered(t *testing.T) { c20Run(t, "", "delivered") }
+
+// As Delivered, for the system section, with nodes that carry the network-bandwidth annotation and a drawn order of
+// node reconciles: a node's delivered settings are the layering of the current ConfigMap plus ITS OWN annotation only.
+func TestVerifC20Annotated(t *testing.T) { c20Run(t, "system", "annotated") }
 
 // ---------------------------------------------------------------- start-up: first reconcile vs. a ConfigMap event
 
